@@ -393,6 +393,26 @@ var listEndpoints = []listEndpoint{
 	{"v1-accounts", "/api/ledger/l1/accounts", "accounts", false, false, []string{"", "address=users:", "metadata[k]=v", "balance=10&balanceOperator=gte"}},
 }
 
+// spiceFilter: puts text into the filter whose bytes produce every base64 symbol (incl. the two that differ between the
+// standard and the URL alphabet) at varying alignments: '?', '~', '>', non-ASCII.
+func spiceFilter(r *vc.Rand, ep listEndpoint, filter string) string {
+	spice := strings.Repeat("x", r.Intn(3)) + vc.Pick(r, []string{"paid?", "¿pagado?~", ">>>???~~~", "日本語?", "ÿþ~?>", "a?b~c>d"})
+	if ep.v2 {
+		switch ep.kind {
+		case "transactions":
+			return fmt.Sprintf(`{"$match":{"metadata[k]":%q}}`, spice)
+		case "accounts":
+			return fmt.Sprintf(`{"$match":{"metadata[k]":%q}}`, spice)
+		default:
+			return filter
+		}
+	}
+	if ep.kind == "logs" {
+		return filter
+	}
+	return "metadata[k]=" + spice
+}
+
 func httpWalk(rep *vc.Report, idx int, ep listEndpoint, filter string, ids []*big.Int, pageSize int, style string) {
 	rel := &relation{ids: ids, kind: ep.kind}
 	e := newEnv(rel.handler(), "l1")
@@ -527,7 +547,12 @@ func runC17(cfg *vc.Config, rep *vc.Report) {
 			if ps > 100 {
 				ps = 100
 			}
-			httpWalk(rep, i, ep, vc.Pick(r, ep.filters), ids, ps, styleName)
+			f := vc.Pick(r, ep.filters)
+			if r.Chance(1, 3) {
+				f = spiceFilter(r, ep, f)
+				rep.Inc("http_walks_with_spiced_filter")
+			}
+			httpWalk(rep, i, ep, f, ids, ps, styleName)
 			rep.Inc("http_walks")
 		}
 	})
